@@ -391,6 +391,18 @@ def run(R):
                     else:
                         R.fail('C03.MAP.1', inst2, wq, h.ast, f'{nm} ends the waiter with {sorted(raised) or "a normal return"} '
                                f'instead of {want_map[nm]}', site(w, h.ast))
+        # the outcome "timed out" / "cancelled" is only ever decided by the wait on the future itself: a raise of these classes that can be
+        # reached without going through a handler of the wait gives up without looking at the future (Data that arrived in time is lost)
+        outside = w.cfg.reachable(removed_nodes={h.id for h in handlers})
+        for x in w.cfg.nodes:
+            if x.kind == 'raise' and x.ast.exc is not None and P.exc_name(w.f.mod, x.ast.exc) in want_map.values():
+                inst3 = f'{wq} :: {norm(x.ast)} only as the outcome of the wait'
+                if x.id in outside:
+                    R.fail('C03.MAP.1', inst3, wq, x.ast, f'{norm(x.ast)} can be reached without the wait on the future having ended that way: the '
+                           'Interest is declared timed out / cancelled without looking at its future, so a Data packet that arrived within the lifetime '
+                           '(the future already holds it) is discarded', site(w, x.ast))
+                else:
+                    R.ok('C03.MAP.1', inst3, site(w, x.ast))
         for nm in want_map:
             if nm not in seen_classes:
                 R.fail('C03.MAP.1', f'{wq} :: {nm} handler', wq, 'def _wait_for_data', f'{nm} around the wait is not mapped to '
